@@ -20,6 +20,8 @@ import (
 	"github.com/pgavlin/dawn"
 	"github.com/pgavlin/dawn/diff"
 	"github.com/pgavlin/dawn/label"
+	starlark_os "github.com/pgavlin/dawn/lib/os"
+	starlark_sh "github.com/pgavlin/dawn/lib/sh"
 	"github.com/pgavlin/dawn/runner"
 	"github.com/pgavlin/dawn/util"
 	"go.starlark.net/starlark"
@@ -36,6 +38,136 @@ type TargetSpec struct {
 	// BreakSave: the body replaces the target's own build record (already holding the in-progress marker written
 	// before the body) by a non-empty directory, so that recording the result after the body fails
 	BreakSave bool `json:"breaksave,omitempty"`
+	// Proc: after its chunks the body runs a real process (this binary in -chatter mode) through os.exec or
+	// sh.exec; the process writes whole lines alternately to its standard output and standard error, in pieces
+	Proc *ProcSpec `json:"proc,omitempty"`
+}
+
+type ProcSpec struct {
+	Via     string `json:"via"` // "os" or "sh"
+	Seed    uint64 `json:"seed"`
+	Lines   int    `json:"lines"`
+	MaxLen  int    `json:"maxlen"`
+	FinalNL bool   `json:"finalnl"`
+}
+
+func (p *ProcSpec) arg() string {
+	nl := 0
+	if p.FinalNL {
+		nl = 1
+	}
+	return fmt.Sprintf("%d,%d,%d,%d", p.Seed, p.Lines, p.MaxLen, nl)
+}
+
+type chatterLine struct {
+	stream int // 1 stdout, 2 stderr
+	text   string
+	nl     bool
+}
+
+// chatterLines: what the process writes, as a function of its argument (both sides compute it)
+func chatterLines(p *ProcSpec) []chatterLine {
+	r := &rng{s: p.Seed}
+	out := make([]chatterLine, p.Lines)
+	for i := range out {
+		n := 1 + r.below(p.MaxLen)
+		if r.chance(50) {
+			n = 1 + r.below(1+r.below(60)) // many short lines among the long ones
+		}
+		b := make([]byte, n)
+		tag := fmt.Sprintf("%d:", i)
+		for j := range b {
+			if j < len(tag) {
+				b[j] = tag[j]
+			} else {
+				b[j] = byte('a' + (i+j)%26)
+			}
+		}
+		out[i] = chatterLine{stream: 1 + (i+int(p.Seed))%2, text: string(b), nl: true}
+		if r.chance(20) {
+			out[i].stream = 1 + r.below(2)
+		}
+	}
+	if p.Lines > 0 && !p.FinalNL {
+		out[p.Lines-1].nl = false
+	}
+	return out
+}
+
+// chatter is the helper process: every line is finished on one stream before the next one starts on the other,
+// but each line is written in pieces, one write system call per piece
+func chatter(arg string) {
+	var p ProcSpec
+	var nl int
+	fmt.Sscanf(arg, "%d,%d,%d,%d", &p.Seed, &p.Lines, &p.MaxLen, &nl)
+	p.FinalNL = nl == 1
+	r := &rng{s: p.Seed ^ 0x5bd1e995}
+	for _, l := range chatterLines(&p) {
+		f := os.Stdout
+		if l.stream == 2 {
+			f = os.Stderr
+		}
+		data := l.text
+		if l.nl {
+			data += "\n"
+		}
+		for len(data) > 0 {
+			n := len(data)
+			switch r.below(4) {
+			case 0:
+				n = 1 + r.below(len(data))
+			case 1:
+				if len(data) > 7 {
+					n = 1 + r.below(7)
+				}
+			case 2:
+				if len(data) > 70000 {
+					n = 65536 + r.below(4096)
+				}
+			}
+			f.Write([]byte(data[:n]))
+			data = data[n:]
+			if r.chance(3) {
+				time.Sleep(time.Duration(r.below(200)) * time.Microsecond)
+			}
+		}
+	}
+}
+
+var selfExe = func() string {
+	e, err := os.Executable()
+	if err != nil {
+		panic(err)
+	}
+	return e
+}()
+
+// procText: everything the body's process step delivers to the body's stdout/stderr, in order (sh.exec echoes
+// the command line first)
+func (t *TargetSpec) procText() string {
+	if t.Proc == nil {
+		return ""
+	}
+	var b strings.Builder
+	if t.Proc.Via == "sh" {
+		b.WriteString(selfExe + " -chatter " + t.Proc.arg() + "\n")
+	}
+	for _, l := range chatterLines(t.Proc) {
+		b.WriteString(l.text)
+		if l.nl {
+			b.WriteByte('\n')
+		}
+	}
+	return b.String()
+}
+
+// fullText: all the output of the body: the chunks, then the process
+func (t *TargetSpec) fullText() string {
+	text := ""
+	for _, ch := range t.Chunks {
+		text += unhx(ch)
+	}
+	return text + t.procText()
 }
 
 type RunSpec struct {
@@ -140,6 +272,13 @@ func buildFile(ts []TargetSpec) string {
 			q = append(q, fmt.Sprintf("%q", c))
 		}
 		fmt.Fprintf(&b, "    emit(%s)\n", strings.Join(q, ", "))
+		if t.Proc != nil {
+			if t.Proc.Via == "sh" {
+				fmt.Fprintf(&b, "    sh.exec(%q)\n", selfExe+" -chatter "+t.Proc.arg())
+			} else {
+				fmt.Fprintf(&b, "    os.exec([%q, \"-chatter\", %q])\n", selfExe, t.Proc.arg())
+			}
+		}
 		if t.BreakSave {
 			fmt.Fprintf(&b, "    breakrecord(%q)\n", t.label())
 		}
@@ -222,6 +361,9 @@ func genCase(r *rng) *Case {
 		t.Fail = r.chance(12)
 		t.Always = r.chance(8)
 		t.BreakSave = r.chance(7)
+		if r.chance(6) {
+			t.Proc = &ProcSpec{Via: []string{"os", "sh"}[r.below(2)], Seed: r.next() % 100000, Lines: 1 + r.below(6), MaxLen: 1 + r.below(300), FinalNL: r.chance(70)}
+		}
 	}
 	if r.chance(15) { // a missing dependency somewhere
 		t := &c.Targets[r.below(n)]
@@ -397,7 +539,8 @@ func runCaseInner(c *Case) {
 			// a fresh recorder per load: targets still running after an earlier Run returned (possible when a
 			// dependency cycle was detected) keep reporting to the Events of the project they belong to
 			rec, emit, cb = newRecorder()
-			proj, err = dawn.Load(dir, &dawn.LoadOptions{Events: rec, Builtins: starlark.StringDict{"emit": emit, "breakrecord": breakrecord}})
+			proj, err = dawn.Load(dir, &dawn.LoadOptions{Events: rec, Builtins: starlark.StringDict{"emit": emit, "breakrecord": breakrecord,
+				"os": starlark_os.Module, "sh": starlark_sh.Module}})
 			if err != nil {
 				viol("load", "generated project does not load: "+err.Error(), i)
 				return
@@ -556,11 +699,11 @@ func judgeRun(c *Case, specs map[string]*TargetSpec, run int, res *runResult, vi
 	for l, t := range specs {
 		var want []string
 		if res.facts[l].BodyCalled {
-			text := ""
-			for _, ch := range t.Chunks {
-				text += unhx(ch)
+			want = refSplit(t.fullText(), true)
+			if t.Proc != nil {
+				count("ev.proc.bodies."+t.Proc.Via, 1)
+				count("ev.proc.lines", t.Proc.Lines)
 			}
-			want = refSplit(text, true)
 			count("ev.bodies", 1)
 			count("ev.lines", len(want))
 		}
@@ -569,7 +712,25 @@ func judgeRun(c *Case, specs map[string]*TargetSpec, run int, res *runResult, vi
 		for i := 0; same && i < len(want); i++ {
 			same = want[i] == got[i]
 		}
-		if !same {
+		if !same && t.Proc != nil {
+			// a real process wrote these lines, whole and one after the other, to its stdout and stderr
+			at := 0
+			for at < len(want) && at < len(got) && want[at] == got[at] {
+				at++
+			}
+			clip := func(ls []string) string {
+				if at < len(ls) {
+					x := ls[at]
+					if len(x) > 60 {
+						x = fmt.Sprintf("%s…(%d bytes)", x[:60], len(x))
+					}
+					return fmt.Sprintf("%q", x)
+				}
+				return "(none)"
+			}
+			viol("process-lines", fmt.Sprintf("%s ran a process (%s.exec) that wrote %d lines; %d lines were delivered; first difference at line %d: delivered %s, written %s",
+				l, t.Proc.Via, len(want), len(got), at, clip(got), clip(want)), run)
+		} else if !same {
 			viol("lines", fmt.Sprintf("%s wrote %q: lines delivered %q, expected %q", l, t.Chunks, got, want), run)
 		}
 	}
@@ -739,8 +900,14 @@ func judgeRun(c *Case, specs map[string]*TargetSpec, run int, res *runResult, vi
 				}
 			}
 			chunks := "."
-			if t := specs[l]; t != nil && len(t.Chunks) > 0 {
-				chunks = strings.Join(t.Chunks, ",")
+			if t := specs[l]; t != nil {
+				cs := append([]string(nil), t.Chunks...)
+				if pt := t.procText(); pt != "" {
+					cs = append(cs, hx(pt)) // whatever the pieces were, the model is fed the text in one
+				}
+				if len(cs) > 0 {
+					chunks = strings.Join(cs, ",")
+				}
 			}
 			seq := "."
 			if len(items) > 0 {
@@ -819,7 +986,53 @@ func runInChild(c *Case) {
 	}
 }
 
+// procStream: targets whose bodies run real processes writing long and piecewise-written lines to both streams
+func procStream(r *rng, tier string) {
+	n := 14
+	if tier == "thorough" {
+		n = 250
+	}
+	if tier == "race" {
+		n = 40
+	}
+	for i := 0; i < n; i++ {
+		c := &Case{Files: map[string]string{}}
+		nt := 1 + r.below(3)
+		for j := 0; j < nt; j++ {
+			t := TargetSpec{Name: fmt.Sprintf("t%d", j)}
+			if j > 0 && r.chance(60) {
+				t.Deps = []string{c.Targets[r.below(j)].label()}
+			}
+			maxLen := []int{40, 400, 5000, 70000, 200000}[r.below(5)]
+			lines := 2 + r.below(40)
+			if maxLen >= 70000 {
+				lines = 2 + r.below(6)
+			}
+			t.Proc = &ProcSpec{Via: []string{"os", "sh"}[r.below(2)], Seed: r.next() % 1000000, Lines: lines, MaxLen: maxLen, FinalNL: r.chance(60)}
+			if r.chance(30) {
+				t.Chunks = []string{hx("pre"), hx("fix\n")}
+			}
+			if r.chance(20) {
+				t.Chunks = []string{hx("partial")}
+			}
+			t.Fail = r.chance(10)
+			c.Targets = append(c.Targets, t)
+		}
+		root := c.Targets[nt-1].label()
+		c.Runs = []RunSpec{{Target: root}, {Target: root, Always: true, NoReload: true}}
+		count("ev.proc.cases", 1)
+		runCase(c)
+	}
+}
+
 func evStreams(r *rng, tier string) {
+	if p := runtime.GOMAXPROCS(0); p < 4 {
+		runtime.GOMAXPROCS(4)
+	}
+	procStream(r, tier)
+	if tier == "race" {
+		return
+	}
 	n := 40
 	if tier == "thorough" {
 		n = 3000
